@@ -395,6 +395,9 @@ def do_batch(prop_id, tier, batch_seed, jobs, runs_override=None, budget_overrid
 
     if mismatch:
         harness_errors.append({"index": mismatch[0], "harness_error": f"nondeterministic digests for run indices {sorted(set(mismatch))[:10]}"})
+    if hasattr(prop, "batch_harness_errors"):
+        for msg in prop.batch_harness_errors(results):
+            harness_errors.append({"index": -1, "harness_error": msg})
 
     # ---- evidence
     wall = _wall.monotonic() - t_start
